@@ -146,7 +146,9 @@ func c09(c *Ctx) {
 		word   string
 		status int
 	}{{"ok", 0}, {"ok", 0}, {"fail", 1}, {"boom", 1}, {"nosuch", 2}, {"tool", 0}}
-	leftovers := []int{-1, -1, -1, 0, 1, 5, 17, 18, 19, 40, 300, int(fullSize) - 1, int(fullSize)}
+	// prefix lengths of a real generated file; beyond its size: the whole file followed by garbage (a leftover of a
+	// longer, different generation); -2: garbage without the constraint line, longer than the file
+	leftovers := []int{-1, -1, -1, 0, 1, 5, 17, 18, 19, 40, 300, int(fullSize) - 1, int(fullSize), int(fullSize) + 700, -2}
 	haveStrace := exec.Command("strace", "-V").Run() == nil
 
 	cacheN := 0
@@ -194,8 +196,17 @@ func c09(c *Ctx) {
 			}
 		}
 		leftover := "absent"
-		if lo >= 0 {
-			os.WriteFile(filepath.Join(proj, "mage_output_file.go"), ref[:lo], 0o644)
+		if lo >= 0 || lo == -2 {
+			var content []byte
+			switch {
+			case lo == -2:
+				content = []byte(strings.Repeat("garbage )( not go\n", int(fullSize)/10))
+			case lo > int(fullSize):
+				content = append(append([]byte{}, ref...), []byte(strings.Repeat("\nfunc leftoverGarbage() { this does not parse\n", (lo-int(fullSize))/40))...)
+			default:
+				content = ref[:lo]
+			}
+			os.WriteFile(filepath.Join(proj, "mage_output_file.go"), content, 0o644)
 			leftover = classifyMain(proj, fullSize)
 		}
 		before := snapshot(proj)
